@@ -269,8 +269,7 @@ prop("C02", explanation="chain, every link machine-checked: real encode_symbol =
      "-> exact interval step (lemma_bridge); real decode_symbol == ll step (Verus, 6 widths, all P) == dec_step (thm_decode_is_dec_step); lemma_coupling + lemma_nested + "
      "lemma_message_roundtrip (messages of ANY length); real seal == seal_words (Verus) and lemma_seal_window (State = 2 Words, all situations). "
      "Kani: decoder step, seal + arbitrary suffix, read_point on the real code; whole messages of 1-3 symbols as a bounded cross-check.",
-     assumptions=["the step from `seal_words ++ suffix` to `contains(final interval, data)` (value of held-back words + window) is checked on the real code by Kani at (u8,u16) and (u16,u32) "
-                  "(range::*::seal_suffix) and by lemma_seal_window at the window level for all widths with State = 2 Words; the two are not composed into one Verus theorem"])
+     assumptions=["C11/C02 at State wider than 2 Words: seal is a recorded finding (known_findings.json); the lemma chain is for State = 2 Words"])
 prop("C03", level="model_checking", explanation="model contract (tiling, non-empty, no probability one, rejection outside support, quantile == encoder view) for every constructor output: "
      "uniform complete over all ranges; fixed-point tables over all u8 tables of <= 3 entries; float tables 3 x f32 all bit patterns; quantiser encoder view under any monotone CDF stub")
 prop("C04", explanation="push(pop(c,e),e) == c per step (Kani) + lemma_push_pop/lemma_bits_back (Verus, all widths/lengths) + raw binary import/export for any words")
@@ -325,7 +324,7 @@ claim("C20", "Unsafe preconditions (unchecked indexing, NonZero::new_unchecked, 
 
 # ---------------- lemma layer (hand written Verus, width-parametric, no code from /repo)
 lemma("lemmas_range_interval.rs", ["C02", "C07", "C11"])
-lemma("lemmas_range_bridge.rs", ["C02", "C06"])
+lemma("lemmas_range_bridge.rs", ["C02", "C06", "C11"])
 lemma("lemmas_seal.rs", ["C11", "C02"])
 lemma("lemmas_chain.rs", ["C13"])
 kani("range::guard_u8_u16", ["C08", "C18"], timeout=900, fns=[Q + "EncoderGuard::{new,drop}", Q + "RangeEncoder::{seal,unseal,num_seal_words,num_words,get_compressed}"],
@@ -351,6 +350,7 @@ verus_unit(
         "seal": dict(own=["C06", "C08", "C11", "C12", "C18"], dep=["C02"], kani_twin="range::u8_u16_p8::seal_suffix",
                      text="ensures: bulk' == bulk ++ seal_words(state, situation) for any n_inv; state and situation untouched"),
         "num_seal_words": dict(own=["C18", "C08"], dep=[], text="ensures: count == |seal_words(state, situation)|"),
+        "thm_seal_words_is_seal_seq": dict(own=["C11", "C02", "C06"], dep=[], text="layer B = layer A: seal_words on machine values is seal_seq of the math layer, to which thm_seal_contains applies (any suffix stays inside the interval, State = 2 Words)"),
     },
 )
 kani("models::quantizer_reject_i16_u8_p8", ["C09"], fns=[M + "quantize.rs::<LeakilyQuantizedDistribution as EncoderModel>::left_cumulative_and_probability"],
